@@ -214,6 +214,9 @@ pub fn run_batch<H: Harness>(prop: &str, tier: Tier, seed_base: u64, first: u64,
         let out = H::execute(&scn, prop, &mut stats);
         stats.runs += 1;
         done += 1;
+        if std::env::var_os("VERIF_PRINT_FP").is_some() {
+            println!("FP {} {} {:016x} {}", H::NAME, i, out.fingerprint, out.violations.len());
+        }
         if let Some(sig) = out.signature {
             stats.nontrivial_runs += 1;
             stats.signatures.insert(sig);
